@@ -33,9 +33,10 @@ impl<'a> Chooser<'a> {
     }
 }
 
-pub const UNICODE_WS: [char; 14] = [
-    '\u{0085}', '\u{00A0}', '\u{1680}', '\u{2000}', '\u{2003}', '\u{200A}', '\u{2028}', '\u{2029}', '\u{202F}', '\u{205F}', '\u{3000}', '\u{000B}',
-    '\u{000C}', '\u{2009}',
+// every non-ASCII White_Space character (char::is_whitespace), plus VT and FF
+pub const UNICODE_WS: [char; 21] = [
+    '\u{0085}', '\u{00A0}', '\u{1680}', '\u{2000}', '\u{2001}', '\u{2002}', '\u{2003}', '\u{2004}', '\u{2005}', '\u{2006}', '\u{2007}', '\u{2008}',
+    '\u{2009}', '\u{200A}', '\u{2028}', '\u{2029}', '\u{202F}', '\u{205F}', '\u{3000}', '\u{000B}', '\u{000C}',
 ];
 
 pub const COMMENT_BODIES: [&str; 20] = [
